@@ -88,10 +88,17 @@ def generate(rng, tier):
                 for pend in ('pending', 'masked', 'none'):
                     cases.append(('p%d' % npre, halt_case(rng, ime, pend, rng.choice(SAFE1), rng.choice(idles[:6]), prefix=prefix)))
                     npre += 1
+    # a key press (display callback -> Controller.ButtonAction + CPU.OnInput) must not end HALT; it does end STOP
+    from props import sysgen
+    nkey = 0
+    for rep in range(4 if tier == 'quick' else 40):
+        for prog in ([0x76, 0x3c, 0x3c, 0x18, 0xfc], [0xfb, 0x76, 0x3c, 0x18, 0xfc], [0x10, 0x00, 0x3c, 0x18, 0xfd]):
+            cases.append(('k%d' % nkey, sysgen.key_case(rng, prog, video=1 if rep % 4 else 0)))
+            nkey += 1
     # every idle length 0..300 for HALT ; INC A
     for idle in range(0, 301 if tier == 'quick' else 2001):
         cases.append(('i%d' % idle, halt_case(rng, idle % 2, 'none', 0x3c, idle)))
-    info = dict(input_distribution=dict(halt_cases=n, prefixed_cases=npre, idle_lengths=len(idles)),
+    info = dict(input_distribution=dict(halt_cases=n, prefixed_cases=npre, key_event_cases=nkey, idle_lengths=len(idles)),
                 samples=[dict(case=cases[3][0], script=cases[3][1])])
     return cases, info
 
